@@ -1,5 +1,7 @@
 """Driver configuration and manifest text for C07 (see DESIGN.md 5.7)."""
 
+RULE_ADD = ' Later additions: Consumer.Offsets.Retention set in a third of the cases (OffsetCommit v2); Consumer.Group.Rebalance.Retry.Max drawn from {4,4,4,1,0,0}.'
+
 CHECK = {
     'pkg': '.', 'sim': True,
     'parts': [{'name': 'main', 'test': 'TestVF_C07', 'quick': {'shards': 8, 'checks': 100}, 'thorough': {'shards': 16, 'checks': 6000}}],
